@@ -26,9 +26,11 @@
 (* compiler could make it order-insensitive; it is excluded from the       *)
 (* behavioural comparison (only accept/reject consistency is required).    *)
 (*                                                                         *)
-(* Two families of programs (records [decls, g, start], see ShapeProg and   *)
-(* PosProg): dependency SHAPES, described here, and syntactic POSITIONS of  *)
-(* the only mention of a later global, described further down.             *)
+(* Families of programs (records [decls, g, start]): dependency SHAPES,     *)
+(* described here (ShapeProg); syntactic POSITIONS of the only mention of a *)
+(* later global (PosProg), SELF-REFERENCE of a non-function initialiser at  *)
+(* those positions (SelfProg) and unspecified-behaviour cases, further      *)
+(* down; TYPE ORDER in module SyltTypeOrder.                                *)
 (*                                                                         *)
 (* The shape universe: programs of n <= 4 globals g_1..g_n plus `start`; the *)
 (* initialiser of each global is drawn from the menu below (kind, target   *)
@@ -234,6 +236,7 @@ GH == 4          \* h2 :: fn a: int, b: int -> int do a * 10 + b end
 L == V(GL)
 CallForm(f, args, form) == [k |-> "call", f |-> f, args |-> args, form |-> form]   \* form: 1 f' a, b   2 a -> f(b)   3 a -> f' b
 BMDecl == BlobD("BM", <<FD("m", TFn(<<>>, TInt))>>)
+WDecl == BlobD("W", <<FD("b", TName("B"))>>)
 TPairI == TTuple(<<TInt, TInt>>)
 
 PD(lk, ret, decls, h, body) == [lk |-> lk, ret |-> ret, decls |-> decls, h |-> h, body |-> body]
@@ -245,11 +248,11 @@ PosNames == <<"ifcond", "ifthen", "elifcond", "elifthen", "ifelse",
               "callee", "arg1", "arg2", "stdarg", "primearg", "arrowlhs", "arrowarg", "arrowprime",
               "tupleelem", "listelem", "blobfield", "variantpayload", "indexbase", "fieldbase",
               "neg", "not", "binleft", "binright", "cmpright", "andleft", "andright", "orright",
-              "asgrhs", "opasgrhs", "asgtarget", "opasgtarget", "fldtarget",
+              "asgrhs", "opasgrhs", "asgtarget", "opasgtarget", "fldtarget", "fldoptarget", "deepfldtarget", "fldtargetinloop",
               "retexpr", "retinif", "defvalue", "block", "closure", "iife", "method",
               "assertleft", "assertright">>
 Positions == {PosNames[x] : x \in 1..Len(PosNames)}
-AssignPositions == {"asgtarget", "opasgtarget", "fldtarget"}
+AssignPositions == {"asgtarget", "opasgtarget", "fldtarget", "fldoptarget", "deepfldtarget", "fldtargetinloop", "idxtarget"}
 
 PosDef(pos) ==
     CASE pos = "ifcond"    -> PD("t", TInt, {}, FALSE, <<Ex(If2(L, <<Ex(I(1))>>, <<Ex(I(2))>>))>>)
@@ -297,6 +300,15 @@ PosDef(pos) ==
       [] pos = "asgtarget" -> PD("m", TInt, {}, FALSE, <<Asg("=", L, I(9)), Ex(I(1))>>)
       [] pos = "opasgtarget" -> PD("m", TInt, {}, FALSE, <<Asg("+=", L, I(2)), Ex(I(1))>>)
       [] pos = "fldtarget" -> PD("b", TInt, {"B"}, FALSE, <<Asg("=", Fld(L, "x"), I(9)), Ex(I(1))>>)
+      [] pos = "fldoptarget" -> PD("b", TInt, {"B"}, FALSE, <<Asg("+=", Fld(L, "x"), I(2)), Ex(I(1))>>)
+      [] pos = "deepfldtarget" -> PD("w", TInt, {"B", "W"}, FALSE, <<Asg("=", Fld(Fld(L, "b"), "x"), I(9)), Ex(I(1))>>)
+      [] pos = "fldtargetinloop" -> PD("b", TInt, {"B"}, FALSE,
+                                 <<DefM(301, TInt, I(0)),
+                                   Loop(Bin("<", V(301), I(2)), <<Asg("+=", V(301), I(1)), Asg("=", Fld(L, "x"), V(301))>>),
+                                   Ex(V(301))>>)
+      \* not in Positions: assigning a tuple element compiles but always fails at run time, so the specification
+      \* defines no result for it; it is an "unspecified behaviour" case (see UnspecCases)
+      [] pos = "idxtarget" -> PD("q", TInt, {}, FALSE, <<Asg("=", Idx(L, 0), I(9)), Ex(I(1))>>)
       [] pos = "retexpr"   -> PD("i", TInt, {}, FALSE, <<Ret(L)>>)
       [] pos = "retinif"   -> PD("i", TInt, {}, FALSE, <<Ex(If1(Bo(TRUE), <<Ret(L)>>)), Ex(I(0))>>)
       [] pos = "defvalue"  -> PD("i", TInt, {}, FALSE, <<DefC(301, TInt, L), Ex(V(301))>>)
@@ -319,7 +331,9 @@ LateTop(lk) ==
       [] lk = "b" -> DefN(GL, "mut", TName("B"), BlobL("B", <<FI("x", I(7))>>), "late")
       [] lk = "f" -> DefN(GL, "const", TNone, Fn(<<>>, TInt, <<Ex(I(7))>>), "late")
       [] lk = "p" -> DefN(GL, "const", TPairI, Tup(<<I(7), I(8)>>), "late")
-LateShow(lk) == CASE lk = "b" -> Fld(L, "x") [] lk = "f" -> Call(L, <<>>) [] OTHER -> L
+      [] lk = "q" -> DefN(GL, "mut", TPairI, Tup(<<I(7), I(8)>>), "late")
+      [] lk = "w" -> DefN(GL, "mut", TName("W"), BlobL("W", <<FI("b", BlobL("B", <<FI("x", I(7))>>))>>), "late")
+LateShow(lk) == CASE lk = "b" -> Fld(L, "x") [] lk = "w" -> Fld(Fld(L, "b"), "x") [] lk = "f" -> Call(L, <<>>) [] OTHER -> L
 
 HelperTop == DefN(GH, "const", TNone,
                   Fn(<<P(401, TInt), P(402, TInt)>>, TInt, <<Ex(Bin("+", Bin("*", V(401), I(10)), V(402)))>>), "h2")
@@ -327,6 +341,10 @@ HelperTop == DefN(GH, "const", TNone,
 Users == {"start", "init", "iife", "expr"}
 SingleExpr(d) == Len(d.body) = 1 /\ d.body[1].k = "expr"
 PosCases == {c \in [pos : Positions, user : Users] : c.user = "expr" => SingleExpr(PosDef(c.pos))}
+
+\* Cases for which the specification defines no result (the construct always fails at run time) but the property
+\* still demands the SAME observation in every textual order: an assignment to an element of a global tuple.
+UnspecCases == {[pos |-> "idxtarget", user |-> u] : u \in {"start", "init", "iife"}}
 
 PosProg(c) ==
     LET d == PosDef(c.pos)
@@ -339,7 +357,8 @@ PosProg(c) ==
                    [] OTHER -> Nil IN
     [decls |-> (IF "E" \in d.decls \/ d.lk = "e" THEN <<EnumDecl>> ELSE <<>>)
                \o (IF "B" \in d.decls \/ d.lk = "b" THEN <<BlobDecl>> ELSE <<>>)
-               \o (IF "BM" \in d.decls THEN <<BMDecl>> ELSE <<>>),
+               \o (IF "BM" \in d.decls THEN <<BMDecl>> ELSE <<>>)
+               \o (IF "W" \in d.decls THEN <<WDecl>> ELSE <<>>),
      g |-> <<LateTop(d.lk)>> \o (IF d.h THEN <<HelperTop>> ELSE <<>>)
            \o (IF hasF THEN <<DefN(GF, "const", TNone, body, "f")>> ELSE <<>>)
            \o (IF hasU THEN <<DefN(GU, "const", d.ret, uinit, "u")>> ELSE <<>>),
@@ -347,6 +366,21 @@ PosProg(c) ==
                     Fn(<<>>, TVoid, (IF hasU THEN <<PrintS(V(GU))>> ELSE <<>>)
                                     \o (IF hasF THEN <<PrintS(Call(V(GF), <<>>))>> ELSE <<>>)
                                     \o <<PrintS(LateShow(d.lk))>>), "start")]
+
+\* SELF-REFERENCE of a non-function initialiser: the global u mentions ITSELF at position P of its own
+\* initialiser (directly, or inside an immediately called closure): a value cycle of length one - no complete
+\* behaviour, rejected in every order.  (Positions whose `late` is an int and whose result is an int, so that the
+\* program is well typed apart from the cycle; u plays the role of `late`.)
+SelfCases == {c \in [pos : Positions, user : {"expr", "iife"}] :
+                /\ PosDef(c.pos).lk = "i" /\ PosDef(c.pos).ret = TInt
+                /\ (c.user = "expr" => SingleExpr(PosDef(c.pos)))}
+SelfProg(c) ==
+    LET d == PosDef(c.pos)
+        uinit == IF c.user = "iife" THEN Call(Fn(<<>>, d.ret, d.body), <<>>) ELSE d.body[1].e IN
+    [decls |-> (IF "E" \in d.decls THEN <<EnumDecl>> ELSE <<>>) \o (IF "B" \in d.decls THEN <<BlobDecl>> ELSE <<>>)
+               \o (IF "BM" \in d.decls THEN <<BMDecl>> ELSE <<>>),
+     g |-> (IF d.h THEN <<HelperTop>> ELSE <<>>) \o <<DefN(GL, "const", TInt, uinit, "u")>>,
+     start |-> DefN(StartId, "const", TNone, Fn(<<>>, TVoid, <<PrintS(L)>>), "start")]
 
 ---------------------------------------------------------------------------
 (* semantics: any order in which the dynamic needs are met *)
